@@ -961,17 +961,25 @@ class StateWorld(Run):
     # -- circuits ---------------------------------------------------------
     def _take_item(self, c, item):
         pc = self.pc
-        if "meas" in item:
-            if max(item["meas"]) >= self.n:
-                raise Skip()
-            c["obj"].measure(*item["meas"])
-            c["prog"].append(item)
-            c["ref"].append(None)
-        else:
-            gate, ref = self.build_gate(item["gate"])
-            c["obj"].take(gate)
-            c["prog"].append(item)
-            c["ref"].append(ref)
+        try:
+            if "meas" in item:
+                if max(item["meas"]) >= self.n:
+                    raise Skip()
+                c["obj"].measure(*item["meas"])
+                c["prog"].append(item)
+                c["ref"].append(None)
+            else:
+                gate, ref = self.build_gate(item["gate"])
+                c["obj"].take(gate)
+                c["prog"].append(item)
+                c["ref"].append(ref)
+        except Skip:
+            raise
+        except Exception as e:
+            if "c14" in self.flags:
+                raise Violation("c14.exception", {"exc": repr(e), "op": "take", "item": item})
+            self.stats["env_error:take:%s" % type(e).__name__] += 1
+            raise Skip()
 
     def _a_cnew(self, op):
         c = {"obj": self.pc.Circuit(self.n), "prog": [], "ref": [], "last": None, "l2p_prev": 0.0}
